@@ -286,6 +286,24 @@ end
 theorem allPairs_iff_flatten {P : Pair → Prop} {ps : List Pair} :
     AllPairs P ps ↔ ∀ p ∈ flattenL ps, P p := ⟨AllPairs.flatten, allPairs_of_flatten ps⟩
 
+/-- flat reading of `WFForest`: *every* pair, at every depth, lies inside `[lo, hi]`, has
+    `start ≤ stop`, and its children are a well-formed forest inside its own span -/
+theorem WFForest.allPairs {lo hi : Nat} {ps : List Pair} (h : WFForest lo hi ps) :
+    AllPairs (fun p => lo ≤ p.start ∧ p.start ≤ p.stop ∧ p.stop ≤ hi ∧
+      WFForest p.start p.stop p.children) ps := by
+  induction h with
+  | nil _ => exact .nil
+  | @cons lo hi n m s e ch t rest h1 h2 hc hr ihc ihr =>
+    have hle := hr.le
+    refine .cons ⟨h1, h2, hle, hc⟩ (ihc.mono ?_) (ihr.mono ?_)
+    · intro p ⟨a, b, c, d⟩; exact ⟨by omega, b, by omega, d⟩
+    · intro p ⟨a, b, c, d⟩; exact ⟨by omega, b, c, d⟩
+
+theorem WFForest.flat {lo hi : Nat} {ps : List Pair} (h : WFForest lo hi ps) :
+    ∀ p ∈ flattenL ps, lo ≤ p.start ∧ p.start ≤ p.stop ∧ p.stop ≤ hi ∧
+      WFForest p.start p.stop p.children :=
+  h.allPairs.flatten
+
 /-! ## Part 2: tokens and flatten -/
 
 /-- Dyck words with matching rule names -/
@@ -323,6 +341,50 @@ theorem Balanced.check {w : List Tok} (h : Balanced w) : check [] w = true := by
   have := h.check_append [] []
   rw [List.append_nil] at this
   rw [this]; rfl
+
+/-- the converse needs the invariant of the machine in the middle of a word: with `st` on the
+    stack, the rest of the word is balanced blocks separated by the `End`s that close `st` -/
+inductive Closes : List String → List Tok → Prop
+  | nil {b : List Tok} : Balanced b → Closes [] b
+  | cons {n : String} {q : Nat} {st : List String} {b w : List Tok} :
+      Balanced b → Closes st w → Closes (n :: st) (b ++ .stop n q :: w)
+
+theorem Closes.prepend {a : List Tok} (ha : Balanced a) {st : List String} {w : List Tok}
+    (h : Closes st w) : Closes st (a ++ w) := by
+  cases h with
+  | nil hb => exact .nil (.append ha hb)
+  | cons hb hw => rw [← List.append_assoc]; exact .cons (.append ha hb) hw
+
+theorem check_closes : ∀ (w : List Tok) (st : List String), check st w = true → Closes st w
+  | [], st, h => by
+    cases st with
+    | nil => exact .nil .nil
+    | cons _ _ => simp [check] at h
+  | .start n p :: w, st, h => by
+    simp only [check] at h
+    have ih := check_closes w (n :: st) h
+    cases ih with
+    | @cons _ q _ b w' hb hw =>
+      have e : Tok.start n p :: (b ++ Tok.stop n q :: w') = (Tok.start n p :: b ++ [Tok.stop n q]) ++ w' := by
+        simp
+      rw [e]
+      exact hw.prepend (.wrap hb)
+  | .stop n q :: w, st, h => by
+    cases st with
+    | nil => simp [check] at h
+    | cons m st =>
+      simp only [check, Bool.and_eq_true, beq_iff_eq] at h
+      obtain ⟨rfl, h2⟩ := h
+      exact .cons (b := []) .nil (check_closes w st h2)
+
+/-- acceptance by the stack machine implies the inductive notion: the two coincide -/
+theorem Balanced.of_check {w : List Tok} (h : Pest.check [] w = true) : Balanced w := by
+  have := check_closes w [] h
+  cases this with
+  | nil hb => exact hb
+
+theorem balanced_iff_check {w : List Tok} : Balanced w ↔ Pest.check [] w = true :=
+  ⟨Balanced.check, Balanced.of_check⟩
 
 mutual
 theorem Pair.tokens_balanced : ∀ p : Pair, Balanced p.tokens
@@ -424,5 +486,1713 @@ end
 /-- two tokens per pair of the tree -/
 theorem tokens_length (ps : List Pair) : (tokensL ps).length = 2 * (flattenL ps).length :=
   tokensL_length ps
+
+/-! ## Part 3: the primitive matchers stay inside the input -/
+
+section Matchers
+variable {inp : Input}
+
+theorem getElem?_lt {p : Nat} {c : CP} (h : inp[p]? = some c) : p < inp.size :=
+  (Array.getElem?_eq_some_iff.mp h).1
+
+theorem startsWithAt_bound : ∀ (x : Str) (p : Nat), startsWithAt inp x p = true → p + x.length ≤ inp.size
+  | [], p, h => by simpa [startsWithAt] using h
+  | c :: rest, p, h => by
+    simp only [startsWithAt, Bool.and_eq_true] at h
+    have := startsWithAt_bound rest (p + 1) h.2
+    simp only [List.length_cons]; omega
+
+theorem startsWithAtCI_bound : ∀ (x : Str) (p : Nat), startsWithAtCI inp x p = true → p + x.length ≤ inp.size
+  | [], p, h => by simpa [startsWithAtCI] using h
+  | c :: rest, p, h => by
+    simp only [startsWithAtCI, Bool.and_eq_true] at h
+    have := startsWithAtCI_bound rest (p + 1) h.2
+    simp only [List.length_cons]; omega
+
+theorem matchAll_bound : ∀ (lits : List Str) (p q : Nat), p ≤ inp.size →
+    L1.matchAll inp lits p = some q → p ≤ q ∧ q ≤ inp.size
+  | [], p, q, hp, h => by
+    simp only [L1.matchAll, Option.some.injEq] at h
+    subst h; exact ⟨Nat.le_refl _, hp⟩
+  | l :: ls, p, q, hp, h => by
+    simp only [L1.matchAll] at h
+    by_cases hm : startsWithAt inp l p = true
+    · simp only [hm, ↓reduceIte] at h
+      have hb := startsWithAt_bound l p hm
+      have := matchAll_bound ls (p + l.length) q hb h
+      omega
+    · simp only [hm, Bool.false_eq_true, ↓reduceIte] at h
+      cases h
+
+theorem findFrom_go_bound (sub : Str) : ∀ (k p q : Nat), findFrom.go inp sub k p = some q →
+    p ≤ q ∧ q + sub.length ≤ inp.size
+  | 0, p, q, h => by simp [findFrom.go] at h
+  | k + 1, p, q, h => by
+    simp only [findFrom.go] at h
+    by_cases hm : startsWithAt inp sub p = true
+    · simp only [hm, ↓reduceIte, Option.some.injEq] at h
+      subst h
+      exact ⟨Nat.le_refl _, startsWithAt_bound sub p hm⟩
+    · simp only [hm, Bool.false_eq_true, ↓reduceIte] at h
+      have := findFrom_go_bound sub k (p + 1) q h
+      omega
+
+theorem findFrom_bound {sub : Str} {pos q : Nat} (h : findFrom inp sub pos = some q) :
+    pos ≤ q ∧ q ≤ inp.size := by
+  unfold findFrom at h
+  by_cases hp : pos > inp.size
+  · simp [hp] at h
+  · simp only [hp, ↓reduceIte] at h
+    have := findFrom_go_bound sub _ _ _ h
+    omega
+
+theorem skipUntil_fold_bound (pos : Nat) : ∀ (subs : List Str) (b : Option Nat),
+    (∀ q, b = some q → pos ≤ q ∧ q ≤ inp.size) →
+    ∀ q, subs.foldl (fun (b : Option Nat) s =>
+        match findFrom inp s pos with
+        | some p => (match b with | none => some p | some q => if p < q then some p else some q)
+        | none => b) b = some q → pos ≤ q ∧ q ≤ inp.size
+  | [], b, hb, q, h => hb q h
+  | s :: rest, b, hb, q, h => by
+    simp only [List.foldl_cons] at h
+    refine skipUntil_fold_bound pos rest _ ?_ q h
+    intro q' hq'
+    cases hf : findFrom inp s pos with
+    | none => rw [hf] at hq'; exact hb q' hq'
+    | some p =>
+      rw [hf] at hq'
+      have hpb := findFrom_bound hf
+      cases b with
+      | none =>
+        simp only [Option.some.injEq] at hq'
+        subst hq'; exact hpb
+      | some q0 =>
+        simp only at hq'
+        by_cases hlt : p < q0
+        · simp only [hlt, ↓reduceIte, Option.some.injEq] at hq'; subst hq'; exact hpb
+        · simp only [hlt, ↓reduceIte, Option.some.injEq] at hq'; subst hq'; exact hb _ rfl
+
+theorem skipUntilPos_bound (subs : List Str) {pos : Nat} (hp : pos ≤ inp.size) :
+    pos ≤ L1.skipUntilPos inp subs pos ∧ L1.skipUntilPos inp subs pos ≤ inp.size := by
+  unfold L1.skipUntilPos
+  simp only []
+  have := skipUntil_fold_bound (inp := inp) pos subs none (by intro q h; cases h)
+  revert this
+  generalize (subs.foldl (fun (b : Option Nat) s =>
+        match findFrom inp s pos with
+        | some p => (match b with | none => some p | some q => if p < q then some p else some q)
+        | none => b) none) = best
+  intro this
+  cases best with
+  | none => simp only [Option.getD_none]; omega
+  | some q => simp only [Option.getD_some]; exact this q rfl
+
+variable (g : Grammar)
+
+theorem optMatchOnce_bound {alts : List Alt} {pos q : Nat} (h : L1.optMatchOnce g inp alts pos = some q) :
+    pos ≤ q ∧ q ≤ inp.size := by
+  unfold L1.optMatchOnce at h
+  simp only [] at h
+  split at h
+  · rename_i s hs
+    have := startsWithAt_bound s pos (by simpa using List.find?_some hs)
+    simp only [Option.some.injEq] at h; omega
+  · split at h
+    · rename_i s hs
+      have := startsWithAtCI_bound s pos (by simpa using List.find?_some hs)
+      simp only [Option.some.injEq] at h; omega
+    · split at h
+      · cases h
+      · rename_i c hc
+        have := getElem?_lt hc
+        split at h
+        · simp only [Option.some.injEq] at h; omega
+        · split at h
+          · simp only [Option.some.injEq] at h; omega
+          · cases h
+
+theorem optMatchStar_bound (alts : List Alt) : ∀ (k pos : Nat), pos ≤ inp.size →
+    pos ≤ L1.optMatchStar g inp alts k pos ∧ L1.optMatchStar g inp alts k pos ≤ inp.size
+  | 0, pos, hp => by simp only [L1.optMatchStar]; omega
+  | k + 1, pos, hp => by
+    simp only [L1.optMatchStar]
+    cases ho : L1.optMatchOnce g inp alts pos with
+    | none => simp only []; omega
+    | some p =>
+      simp only []
+      have hb := optMatchOnce_bound g ho
+      by_cases hgt : p > pos
+      · simp only [hgt, ↓reduceIte]
+        have := optMatchStar_bound alts k p hb.2
+        omega
+      · simp only [hgt, ↓reduceIte]; omega
+
+theorem optMatch_bound {alts : List Alt} {star : Bool} {pos q : Nat} (hp : pos ≤ inp.size)
+    (h : L1.optMatch g inp alts star pos = some q) : pos ≤ q ∧ q ≤ inp.size := by
+  unfold L1.optMatch at h
+  by_cases he : alts.isEmpty = true
+  · simp only [he, ↓reduceIte, Option.some.injEq] at h; omega
+  · simp only [he, Bool.false_eq_true, ↓reduceIte] at h
+    by_cases hs : star = true
+    · simp only [hs, ↓reduceIte, Option.some.injEq] at h
+      have := optMatchStar_bound (inp := inp) g alts (inp.size + 1 - pos) pos hp
+      omega
+    · simp only [hs, Bool.false_eq_true, ↓reduceIte] at h
+      exact optMatchOnce_bound g h
+
+end Matchers
+
+/-! ## Part 4: every successful L0 run yields a well-formed forest -/
+
+namespace L0
+
+variable (g : Grammar) (inp : Input)
+
+/-- the invariant of the semantic function: a success from a position inside the input ends
+    inside the input, not before where it started, with a forest spanning what was consumed -/
+def TreeOK (rec : Sem0) : Prop :=
+  ∀ e s s' ps, rec e s = .ok s' ps → s.pos ≤ inp.size →
+    s.pos ≤ s'.pos ∧ s'.pos ≤ inp.size ∧ WFForest s.pos s'.pos ps
+
+variable {inp}
+
+theorem ruleWrap_tree {name : String} {mod : Nat} {s s1 s' : S0} {ps1 ps : List Pair}
+    (h : ruleWrap name mod s s1 ps1 = .ok s' ps) (h1 : s.pos ≤ s1.pos)
+    (hw : WFForest s.pos s1.pos ps1) : s'.pos = s1.pos ∧ WFForest s.pos s1.pos ps := by
+  unfold ruleWrap at h
+  by_cases hS : hasBit mod SILENT = true
+  · simp only [hS, ↓reduceIte, R0.ok.injEq] at h
+    obtain ⟨rfl, rfl⟩ := h
+    exact ⟨rfl, hw⟩
+  · simp only [hS, Bool.false_eq_true, ↓reduceIte, R0.ok.injEq] at h
+    obtain ⟨rfl, rfl⟩ := h
+    refine ⟨rfl, ?_⟩
+    by_cases hA : hasBit mod ATOMIC = true
+    · simp only [hA, ↓reduceIte]
+      exact WFForest.single _ _ _ (Nat.le_refl _) h1 (Nat.le_refl _) (visibleList_wf hw)
+    · simp only [hA, Bool.false_eq_true, ↓reduceIte]
+      exact WFForest.single _ _ _ (Nat.le_refl _) h1 (Nat.le_refl _) hw
+
+theorem ruleApply_tree {rec : Sem0} (hrec : TreeOK inp rec) {name : String} {mod : Nat} {body : Expr}
+    {s s' : S0} {ps : List Pair} (h : ruleApply rec name mod body s = .ok s' ps)
+    (hs : s.pos ≤ inp.size) : s.pos ≤ s'.pos ∧ s'.pos ≤ inp.size ∧ WFForest s.pos s'.pos ps := by
+  unfold ruleApply at h
+  cases hb : rec body { s with atomic := ruleAtomic name mod s.atomic } with
+  | ok s1 ps1 =>
+    rw [hb] at h
+    simp only [] at h
+    obtain ⟨a, b, c⟩ := hrec _ _ _ _ hb hs
+    obtain ⟨e1, w⟩ := ruleWrap_tree h a c
+    rw [e1]; exact ⟨a, b, w⟩
+  | fail => rw [hb] at h; cases h
+  | oof => rw [hb] at h; cases h
+  | stuck => rw [hb] at h; cases h
+
+theorem callRule_tree {rec : Sem0} (hrec : TreeOK inp rec) {name : String}
+    {s s' : S0} {ps : List Pair} (h : callRule g rec name s = .ok s' ps)
+    (hs : s.pos ≤ inp.size) : s.pos ≤ s'.pos ∧ s'.pos ≤ inp.size ∧ WFForest s.pos s'.pos ps := by
+  unfold callRule at h
+  cases hl : g.lookup name with
+  | none => rw [hl] at h; cases h
+  | some r => rw [hl] at h; exact ruleApply_tree hrec h hs
+
+theorem trySkip_tree {rec : Sem0} (hrec : TreeOK inp rec) {r : Option Rule}
+    {s s' : S0} {ps : List Pair} (h : trySkip rec r s = .matched s' ps)
+    (hs : s.pos ≤ inp.size) : s.pos ≤ s'.pos ∧ s'.pos ≤ inp.size ∧ WFForest s.pos s'.pos ps := by
+  unfold trySkip at h
+  cases r with
+  | none => cases h
+  | some r =>
+    simp only [] at h
+    cases ha : ruleApply rec r.name r.mod r.body s with
+    | ok s1 ps1 =>
+      rw [ha] at h
+      simp only [Try0.matched.injEq] at h
+      obtain ⟨rfl, rfl⟩ := h
+      exact ruleApply_tree hrec ha hs
+    | fail => rw [ha] at h; cases h
+    | oof => rw [ha] at h; cases h
+    | stuck => rw [ha] at h; cases h
+
+theorem skipLoop_tree {rec : Sem0} (hrec : TreeOK inp rec) (ws cm : Option Rule) {lo : Nat}
+    {s' : S0} {ps : List Pair} :
+    ∀ (k : Nat) (s : S0) (acc : List Pair), WFForest lo s.pos acc → s.pos ≤ inp.size →
+      skipLoop rec ws cm k s acc = .ok s' ps →
+      s.pos ≤ s'.pos ∧ s'.pos ≤ inp.size ∧ WFForest lo s'.pos ps := by
+  intro k
+  induction k with
+  | zero => intro s acc _ _ h; simp [skipLoop] at h
+  | succ k ih =>
+    intro s acc hacc hs h
+    simp only [skipLoop] at h
+    cases h1 : trySkip rec ws s with
+    | matched s1 ps1 =>
+      rw [h1] at h
+      simp only [] at h
+      obtain ⟨a, b, c⟩ := trySkip_tree hrec h1 hs
+      obtain ⟨a', b', c'⟩ := ih s1 _ (hacc.append c) b h
+      exact ⟨by omega, b', c'⟩
+    | stop r =>
+      rw [h1] at h
+      simp only [] at h
+      -- a stop is never a success
+      unfold trySkip at h1
+      cases ws with
+      | none => cases h1
+      | some w =>
+        simp only [] at h1
+        cases ha : ruleApply rec w.name w.mod w.body s with
+        | ok _ _ => rw [ha] at h1; cases h1
+        | fail => rw [ha] at h1; cases h1
+        | oof => rw [ha] at h1; simp only [Try0.stop.injEq] at h1; subst h1; cases h
+        | stuck => rw [ha] at h1; simp only [Try0.stop.injEq] at h1; subst h1; cases h
+    | no =>
+      rw [h1] at h
+      simp only [] at h
+      cases h2 : trySkip rec cm s with
+      | matched s1 ps1 =>
+        rw [h2] at h
+        simp only [] at h
+        obtain ⟨a, b, c⟩ := trySkip_tree hrec h2 hs
+        obtain ⟨a', b', c'⟩ := ih s1 _ (hacc.append c) b h
+        exact ⟨by omega, b', c'⟩
+      | stop r =>
+        rw [h2] at h
+        simp only [] at h
+        unfold trySkip at h2
+        cases cm with
+        | none => cases h2
+        | some w =>
+          simp only [] at h2
+          cases ha : ruleApply rec w.name w.mod w.body s with
+          | ok _ _ => rw [ha] at h2; cases h2
+          | fail => rw [ha] at h2; cases h2
+          | oof => rw [ha] at h2; simp only [Try0.stop.injEq] at h2; subst h2; cases h
+          | stuck => rw [ha] at h2; simp only [Try0.stop.injEq] at h2; subst h2; cases h
+      | no =>
+        rw [h2] at h
+        simp only [R0.ok.injEq] at h
+        obtain ⟨rfl, rfl⟩ := h
+        exact ⟨Nat.le_refl _, hs, hacc⟩
+
+theorem skip_tree {rec : Sem0} (hrec : TreeOK inp rec) {k : Nat} {s s' : S0} {ps : List Pair}
+    (h : skip g rec k s = .ok s' ps) (hs : s.pos ≤ inp.size) :
+    s.pos ≤ s'.pos ∧ s'.pos ≤ inp.size ∧ WFForest s.pos s'.pos ps := by
+  unfold skip at h
+  by_cases ha : s.atomic = true
+  · simp only [ha, ↓reduceIte, R0.ok.injEq] at h
+    obtain ⟨rfl, rfl⟩ := h
+    exact ⟨Nat.le_refl _, hs, .nil (Nat.le_refl _)⟩
+  · simp only [ha, Bool.false_eq_true, ↓reduceIte] at h
+    cases hf : g.fusedSkip with
+    | some r => rw [hf] at h; exact ruleApply_tree hrec h hs
+    | none =>
+      rw [hf] at h
+      simp only [] at h
+      by_cases hn : ((g.lookup "WHITESPACE").isNone && (g.lookup "COMMENT").isNone) = true
+      · simp only [hn, ↓reduceIte, R0.ok.injEq] at h
+        obtain ⟨rfl, rfl⟩ := h
+        exact ⟨Nat.le_refl _, hs, .nil (Nat.le_refl _)⟩
+      · simp only [hn, Bool.false_eq_true, ↓reduceIte] at h
+        exact skipLoop_tree hrec _ _ k s [] (.nil (Nat.le_refl _)) hs h
+
+theorem seqL_tree {rec : Sem0} (hrec : TreeOK inp rec) (k : Nat) {lo : Nat} {s' : S0} {ps : List Pair} :
+    ∀ (es : List Expr) (s : S0) (acc : List Pair), WFForest lo s.pos acc → s.pos ≤ inp.size →
+      seqL g rec k es s acc = .ok s' ps →
+      s.pos ≤ s'.pos ∧ s'.pos ≤ inp.size ∧ WFForest lo s'.pos ps := by
+  intro es
+  induction es with
+  | nil =>
+    intro s acc hacc hs h
+    simp only [seqL, R0.ok.injEq] at h
+    obtain ⟨rfl, rfl⟩ := h
+    exact ⟨Nat.le_refl _, hs, hacc⟩
+  | cons e rest ih =>
+    intro s acc hacc hs h
+    simp only [seqL] at h
+    cases he : rec e s with
+    | ok s1 ps1 =>
+      rw [he] at h
+      simp only [] at h
+      obtain ⟨a, b, c⟩ := hrec _ _ _ _ he hs
+      by_cases hr : rest.isEmpty = true
+      · simp only [hr, ↓reduceIte, R0.ok.injEq] at h
+        obtain ⟨rfl, rfl⟩ := h
+        exact ⟨a, b, hacc.append c⟩
+      · simp only [hr, Bool.false_eq_true, ↓reduceIte] at h
+        cases hsk : skip g rec k s1 with
+        | ok s2 tps =>
+          rw [hsk] at h
+          simp only [] at h
+          obtain ⟨a2, b2, c2⟩ := skip_tree g hrec hsk b
+          obtain ⟨a3, b3, c3⟩ := ih s2 _ ((hacc.append c).append c2) b2 h
+          exact ⟨by omega, b3, c3⟩
+        | fail =>
+          rw [hsk] at h
+          simp only [] at h
+          obtain ⟨a3, b3, c3⟩ := ih s1 _ (hacc.append c) b h
+          exact ⟨by omega, b3, c3⟩
+        | oof => rw [hsk] at h; cases h
+        | stuck => rw [hsk] at h; cases h
+    | fail => rw [he] at h; cases h
+    | oof => rw [he] at h; cases h
+    | stuck => rw [he] at h; cases h
+
+theorem choiceL_tree {rec : Sem0} (hrec : TreeOK inp rec) {s s' : S0} {ps : List Pair} :
+    ∀ (es : List Expr), choiceL rec es s = .ok s' ps → s.pos ≤ inp.size →
+      s.pos ≤ s'.pos ∧ s'.pos ≤ inp.size ∧ WFForest s.pos s'.pos ps := by
+  intro es
+  induction es with
+  | nil => intro h; simp [choiceL] at h
+  | cons e rest ih =>
+    intro h hs
+    simp only [choiceL] at h
+    cases he : rec e s with
+    | ok s1 ps1 =>
+      rw [he] at h
+      simp only [R0.ok.injEq] at h
+      obtain ⟨rfl, rfl⟩ := h
+      exact hrec _ _ _ _ he hs
+    | fail => rw [he] at h; exact ih h hs
+    | oof => rw [he] at h; cases h
+    | stuck => rw [he] at h; cases h
+
+theorem repLoop_tree {rec : Sem0} (hrec : TreeOK inp rec) (e : Expr) (kk : Nat) {lo : Nat}
+    {s' : S0} {ps : List Pair} :
+    ∀ (k : Nat) (first : Bool) (s : S0) (acc : List Pair), WFForest lo s.pos acc → s.pos ≤ inp.size →
+      repLoop g rec e k kk first s acc = .ok s' ps →
+      s.pos ≤ s'.pos ∧ s'.pos ≤ inp.size ∧ WFForest lo s'.pos ps := by
+  intro k
+  induction k with
+  | zero => intro first s acc _ _ h; simp [repLoop] at h
+  | succ k ih =>
+    intro first s acc hacc hs h
+    simp only [repLoop] at h
+    have hA : ∀ s1 tps, (if first = true then R0.ok s [] else skip g rec kk s) = .ok s1 tps →
+        s.pos ≤ s1.pos ∧ s1.pos ≤ inp.size ∧ WFForest s.pos s1.pos tps := by
+      intro s1 tps hx
+      by_cases hf : first = true
+      · simp only [hf, ↓reduceIte, R0.ok.injEq] at hx
+        obtain ⟨rfl, rfl⟩ := hx
+        exact ⟨Nat.le_refl _, hs, .nil (Nat.le_refl _)⟩
+      · simp only [hf, Bool.false_eq_true, ↓reduceIte] at hx
+        exact skip_tree g hrec hx hs
+    cases hsk : (if first = true then R0.ok s [] else skip g rec kk s) with
+    | ok s1 tps =>
+      rw [hsk] at h
+      simp only [] at h
+      obtain ⟨a1, b1, c1⟩ := hA s1 tps hsk
+      cases he : rec e s1 with
+      | ok s2 ps2 =>
+        rw [he] at h
+        simp only [] at h
+        obtain ⟨a2, b2, c2⟩ := hrec _ _ _ _ he b1
+        obtain ⟨a3, b3, c3⟩ := ih false s2 _ ((hacc.append c1).append c2) b2 h
+        exact ⟨by omega, b3, c3⟩
+      | fail =>
+        rw [he] at h
+        simp only [R0.ok.injEq] at h
+        obtain ⟨rfl, rfl⟩ := h
+        exact ⟨Nat.le_refl _, hs, hacc⟩
+      | oof => rw [he] at h; cases h
+      | stuck => rw [he] at h; cases h
+    | fail =>
+      rw [hsk] at h
+      simp only [R0.ok.injEq] at h
+      obtain ⟨rfl, rfl⟩ := h
+      exact ⟨Nat.le_refl _, hs, hacc⟩
+    | oof => rw [hsk] at h; cases h
+    | stuck => rw [hsk] at h; cases h
+
+/-- closing a terminal: it produced no pairs and moved the position forward inside the input -/
+theorem term_tree {s s' r : S0} {ps : List Pair} (h : R0.ok r [] = R0.ok s' ps)
+    (h1 : s.pos ≤ r.pos) (h2 : r.pos ≤ inp.size) :
+    s.pos ≤ s'.pos ∧ s'.pos ≤ inp.size ∧ WFForest s.pos s'.pos ps := by
+  simp only [R0.ok.injEq] at h
+  obtain ⟨rfl, rfl⟩ := h
+  exact ⟨h1, h2, .nil h1⟩
+
+variable (inp)
+
+theorem step_tree {rec : Sem0} (k : Nat) (hrec : TreeOK inp rec) : TreeOK inp (step g inp k rec) := by
+  intro e s s' ps h hs
+  cases e with
+  | str x =>
+    simp only [step] at h
+    split at h
+    · rename_i hm
+      have := startsWithAt_bound x s.pos hm
+      exact term_tree h (by simp [adv]) (by simp only [adv]; omega)
+    · cases h
+  | ci x =>
+    simp only [step] at h
+    split at h
+    · rename_i hm
+      have := startsWithAtCI_bound x s.pos hm
+      exact term_tree h (by simp [adv]) (by simp only [adv]; omega)
+    · cases h
+  | range a b =>
+    simp only [step] at h
+    split at h
+    · rename_i c hc
+      have := getElem?_lt hc
+      split at h
+      · exact term_tree h (by simp [adv]) (by simp only [adv]; omega)
+      · cases h
+    · cases h
+  | ident name tag => exact callRule_tree g hrec h hs
+  | rule name mod sm body => exact ruleApply_tree hrec h hs
+  | seq es => exact seqL_tree g hrec k es s [] (.nil (Nat.le_refl _)) hs h
+  | choice es => exact choiceL_tree hrec es h hs
+  | opt e =>
+    simp only [step] at h
+    cases he : rec e s with
+    | ok s1 ps1 => rw [he] at h; simp only [] at h; rw [h] at he; exact hrec _ _ _ _ he hs
+    | fail => rw [he] at h; exact term_tree h (Nat.le_refl _) hs
+    | oof => rw [he] at h; cases h
+    | stuck => rw [he] at h; cases h
+  | rep e => exact repLoop_tree g hrec e k k true s [] (.nil (Nat.le_refl _)) hs h
+  | rep1 e => exact seqL_tree g hrec k _ s [] (.nil (Nat.le_refl _)) hs h
+  | repExact e n => exact seqL_tree g hrec k _ s [] (.nil (Nat.le_refl _)) hs h
+  | repMin e n => exact seqL_tree g hrec k _ s [] (.nil (Nat.le_refl _)) hs h
+  | repMax e n => exact seqL_tree g hrec k _ s [] (.nil (Nat.le_refl _)) hs h
+  | repMinMax e m n => exact seqL_tree g hrec k _ s [] (.nil (Nat.le_refl _)) hs h
+  | andP e =>
+    simp only [step] at h
+    cases he : rec e s with
+    | ok s1 ps1 => rw [he] at h; exact term_tree h (Nat.le_refl _) hs
+    | fail => rw [he] at h; cases h
+    | oof => rw [he] at h; cases h
+    | stuck => rw [he] at h; cases h
+  | notP e =>
+    simp only [step] at h
+    cases he : rec e s with
+    | ok s1 ps1 => rw [he] at h; cases h
+    | fail => rw [he] at h; exact term_tree h (Nat.le_refl _) hs
+    | oof => rw [he] at h; cases h
+    | stuck => rw [he] at h; cases h
+  | group e tag => simp only [step] at h; exact hrec _ _ _ _ h hs
+  | push e =>
+    simp only [step] at h
+    cases he : rec e s with
+    | ok s1 ps1 =>
+      rw [he] at h
+      simp only [R0.ok.injEq] at h
+      obtain ⟨rfl, rfl⟩ := h
+      have t := hrec _ _ _ _ he hs
+      exact t
+    | fail => rw [he] at h; cases h
+    | oof => rw [he] at h; cases h
+    | stuck => rw [he] at h; cases h
+  | pushLit x => simp only [step] at h; exact term_tree h (Nat.le_refl _) hs
+  | peek =>
+    simp only [step] at h
+    split at h
+    · cases h
+    · rename_i t _ _
+      split at h
+      · rename_i hm
+        have := startsWithAt_bound t s.pos hm
+        exact term_tree h (by simp [adv]) (by simp only [adv]; omega)
+      · cases h
+  | pop =>
+    simp only [step] at h
+    split at h
+    · cases h
+    · rename_i t _ _
+      split at h
+      · rename_i hm
+        have := startsWithAt_bound t s.pos hm
+        exact term_tree h (by simp [adv]) (by simp only [adv]; omega)
+      · cases h
+  | drop =>
+    simp only [step] at h
+    split at h
+    · cases h
+    · exact term_tree h (Nat.le_refl _) hs
+  | peekAll =>
+    simp only [step, matchLits] at h
+    split at h
+    · rename_i p hp
+      have := matchAll_bound _ _ _ hs hp
+      exact term_tree h this.1 this.2
+    · cases h
+  | popAll =>
+    simp only [step, matchLits] at h
+    split at h
+    · rename_i p hp
+      have := matchAll_bound _ _ _ hs hp
+      exact term_tree h this.1 this.2
+    · cases h
+  | peekSlice a b =>
+    simp only [step, matchLits] at h
+    split at h
+    · rename_i p hp
+      have := matchAll_bound _ _ _ hs hp
+      exact term_tree h this.1 this.2
+    · cases h
+  | anyB =>
+    simp only [step] at h
+    split at h
+    · exact term_tree h (by simp [adv]) (by simp only [adv]; omega)
+    · cases h
+  | soiB =>
+    simp only [step] at h
+    split at h
+    · exact term_tree h (Nat.le_refl _) hs
+    · cases h
+  | eoiB =>
+    simp only [step] at h
+    split at h
+    · exact term_tree h (Nat.le_refl _) hs
+    · cases h
+  | uprop n =>
+    simp only [step] at h
+    split at h
+    · rename_i c hc
+      have := getElem?_lt hc
+      split at h
+      · exact term_tree h (by simp [adv]) (by simp only [adv]; omega)
+      · cases h
+    · cases h
+  | skipUntil subs =>
+    simp only [step] at h
+    have := skipUntilPos_bound (inp := inp) subs hs
+    exact term_tree h this.1 this.2
+  | optChoice alts star =>
+    simp only [step] at h
+    split at h
+    · rename_i p hp
+      have := optMatch_bound g hs hp
+      exact term_tree h this.1 this.2
+    · cases h
+
+theorem run_tree : ∀ n, TreeOK inp (run g inp n) := by
+  intro n
+  induction n with
+  | zero => intro e s s' ps h; simp [run] at h
+  | succ n ih => exact step_tree g inp n ih
+
+/-- **C06, spans and nesting (specification level).**  A successful run of any expression from a
+    position inside the input ends inside the input, at or after where it started, and its
+    pairs form a well-formed forest spanning exactly what was consumed. -/
+theorem spec_tree_wf {n : Nat} {e : Expr} {s s' : S0} {ps : List Pair}
+    (h : run g inp n e s = .ok s' ps) (hs : s.pos ≤ inp.size) :
+    s.pos ≤ s'.pos ∧ s'.pos ≤ inp.size ∧ WFForest s.pos s'.pos ps :=
+  run_tree g inp n e s s' ps h hs
+
+/-- the same for `parse` -/
+theorem parse_tree_wf {fuel : Nat} {start : String} {k : Nat} {s : S0} {ps : List Pair}
+    (h : parse g inp fuel start k = .ok s ps) (hk : k ≤ inp.size) :
+    k ≤ s.pos ∧ s.pos ≤ inp.size ∧ WFForest k s.pos ps := by
+  unfold parse at h
+  cases hl : g.lookup start with
+  | none => rw [hl] at h; cases h
+  | some r =>
+    rw [hl] at h
+    exact ruleApply_tree (s := ⟨k, [], false⟩) (run_tree g inp fuel) h hk
+
+end L0
+
+/-! ## Part 5: pair names are names of non-silent rules -/
+
+/-- the expressions the semantic functions can be asked to run when started on `e0` in grammar
+    `g`: `e0`, the rule bodies of `g`, their sub-expressions — and the expressions `step`
+    manufactures for the bounded repetitions (`e+ ↦ e*`, `e{n,} ↦ e*`, `e{,n} ↦ e?`,
+    `e{m,n} ↦ e?`).  (`Reach.rule_sub` / `ident_sub` / `group_sub` below: the rule, identifier and
+    group nodes among them are all *written* in `e0` or in a rule body.) -/
+inductive Reach (g : Grammar) (e0 : Expr) : Expr → Prop
+  | root : Reach g e0 e0
+  | body {r : Rule} : r ∈ g.rules → Reach g e0 r.body
+  | seq {es : List Expr} {x : Expr} : Reach g e0 (.seq es) → x ∈ es → Reach g e0 x
+  | choice {es : List Expr} {x : Expr} : Reach g e0 (.choice es) → x ∈ es → Reach g e0 x
+  | opt {e : Expr} : Reach g e0 (.opt e) → Reach g e0 e
+  | rep {e : Expr} : Reach g e0 (.rep e) → Reach g e0 e
+  | rep1 {e : Expr} : Reach g e0 (.rep1 e) → Reach g e0 e
+  | repExact {e : Expr} {n : Nat} : Reach g e0 (.repExact e n) → Reach g e0 e
+  | repMin {e : Expr} {n : Nat} : Reach g e0 (.repMin e n) → Reach g e0 e
+  | repMax {e : Expr} {n : Nat} : Reach g e0 (.repMax e n) → Reach g e0 e
+  | repMinMax {e : Expr} {m n : Nat} : Reach g e0 (.repMinMax e m n) → Reach g e0 e
+  | andP {e : Expr} : Reach g e0 (.andP e) → Reach g e0 e
+  | notP {e : Expr} : Reach g e0 (.notP e) → Reach g e0 e
+  | group {e : Expr} {tag : Option String} : Reach g e0 (.group e tag) → Reach g e0 e
+  | push {e : Expr} : Reach g e0 (.push e) → Reach g e0 e
+  | rule {name : String} {mod : Nat} {sm : Bool} {body : Expr} :
+      Reach g e0 (.rule name mod sm body) → Reach g e0 body
+  | rep1Rep {e : Expr} : Reach g e0 (.rep1 e) → Reach g e0 (.rep e)
+  | repMinRep {e : Expr} {n : Nat} : Reach g e0 (.repMin e n) → Reach g e0 (.rep e)
+  | repMaxOpt {e : Expr} {n : Nat} : Reach g e0 (.repMax e n) → Reach g e0 (.opt e)
+  | repMinMaxOpt {e : Expr} {m n : Nat} : Reach g e0 (.repMinMax e m n) → Reach g e0 (.opt e)
+
+/-- when `e0` is itself reachable from `e1`, so is everything reachable from `e0` -/
+theorem Reach.trans {g : Grammar} {e0 e1 x : Expr} (h0 : Reach g e1 e0) (h : Reach g e0 x) :
+    Reach g e1 x := by
+  induction h with
+  | root => exact h0
+  | body hr => exact .body hr
+  | seq _ hx ih => exact .seq ih hx
+  | choice _ hx ih => exact .choice ih hx
+  | opt _ ih => exact .opt ih
+  | rep _ ih => exact .rep ih
+  | rep1 _ ih => exact .rep1 ih
+  | repExact _ ih => exact .repExact ih
+  | repMin _ ih => exact .repMin ih
+  | repMax _ ih => exact .repMax ih
+  | repMinMax _ ih => exact .repMinMax ih
+  | andP _ ih => exact .andP ih
+  | notP _ ih => exact .notP ih
+  | group _ ih => exact .group ih
+  | push _ ih => exact .push ih
+  | rule _ ih => exact .rule ih
+  | rep1Rep _ ih => exact .rep1Rep ih
+  | repMinRep _ ih => exact .repMinRep ih
+  | repMaxOpt _ ih => exact .repMaxOpt ih
+  | repMinMaxOpt _ ih => exact .repMinMaxOpt ih
+
+/-- the *syntactic* sub-expressions of `e0` and of the rule bodies: `Reach` without the four
+    clauses for manufactured expressions -/
+inductive Sub (g : Grammar) (e0 : Expr) : Expr → Prop
+  | root : Sub g e0 e0
+  | body {r : Rule} : r ∈ g.rules → Sub g e0 r.body
+  | seq {es : List Expr} {x : Expr} : Sub g e0 (.seq es) → x ∈ es → Sub g e0 x
+  | choice {es : List Expr} {x : Expr} : Sub g e0 (.choice es) → x ∈ es → Sub g e0 x
+  | opt {e : Expr} : Sub g e0 (.opt e) → Sub g e0 e
+  | rep {e : Expr} : Sub g e0 (.rep e) → Sub g e0 e
+  | rep1 {e : Expr} : Sub g e0 (.rep1 e) → Sub g e0 e
+  | repExact {e : Expr} {n : Nat} : Sub g e0 (.repExact e n) → Sub g e0 e
+  | repMin {e : Expr} {n : Nat} : Sub g e0 (.repMin e n) → Sub g e0 e
+  | repMax {e : Expr} {n : Nat} : Sub g e0 (.repMax e n) → Sub g e0 e
+  | repMinMax {e : Expr} {m n : Nat} : Sub g e0 (.repMinMax e m n) → Sub g e0 e
+  | andP {e : Expr} : Sub g e0 (.andP e) → Sub g e0 e
+  | notP {e : Expr} : Sub g e0 (.notP e) → Sub g e0 e
+  | group {e : Expr} {tag : Option String} : Sub g e0 (.group e tag) → Sub g e0 e
+  | push {e : Expr} : Sub g e0 (.push e) → Sub g e0 e
+  | rule {name : String} {mod : Nat} {sm : Bool} {body : Expr} :
+      Sub g e0 (.rule name mod sm body) → Sub g e0 body
+
+/-- a reachable expression is a syntactic sub-expression, or `e*` / `e?` for a syntactic
+    sub-expression `e` -/
+theorem Reach.core {g : Grammar} {e0 x : Expr} (h : Reach g e0 x) :
+    Sub g e0 x ∨ (∃ e, x = .rep e ∧ Sub g e0 e) ∨ (∃ e, x = .opt e ∧ Sub g e0 e) := by
+  induction h with
+  | root => exact .inl .root
+  | body hr => exact .inl (.body hr)
+  | seq _ hx ih =>
+    rcases ih with h | ⟨_, he, _⟩ | ⟨_, he, _⟩
+    · exact .inl (.seq h hx)
+    · cases he
+    · cases he
+  | choice _ hx ih =>
+    rcases ih with h | ⟨_, he, _⟩ | ⟨_, he, _⟩
+    · exact .inl (.choice h hx)
+    · cases he
+    · cases he
+  | opt _ ih =>
+    rcases ih with h | ⟨_, he, _⟩ | ⟨_, he, hs⟩
+    · exact .inl (.opt h)
+    · cases he
+    · cases he; exact .inl hs
+  | rep _ ih =>
+    rcases ih with h | ⟨_, he, hs⟩ | ⟨_, he, _⟩
+    · exact .inl (.rep h)
+    · cases he; exact .inl hs
+    · cases he
+  | rep1 _ ih =>
+    rcases ih with h | ⟨_, he, _⟩ | ⟨_, he, _⟩
+    · exact .inl (.rep1 h)
+    · cases he
+    · cases he
+  | repExact _ ih =>
+    rcases ih with h | ⟨_, he, _⟩ | ⟨_, he, _⟩
+    · exact .inl (.repExact h)
+    · cases he
+    · cases he
+  | repMin _ ih =>
+    rcases ih with h | ⟨_, he, _⟩ | ⟨_, he, _⟩
+    · exact .inl (.repMin h)
+    · cases he
+    · cases he
+  | repMax _ ih =>
+    rcases ih with h | ⟨_, he, _⟩ | ⟨_, he, _⟩
+    · exact .inl (.repMax h)
+    · cases he
+    · cases he
+  | repMinMax _ ih =>
+    rcases ih with h | ⟨_, he, _⟩ | ⟨_, he, _⟩
+    · exact .inl (.repMinMax h)
+    · cases he
+    · cases he
+  | andP _ ih =>
+    rcases ih with h | ⟨_, he, _⟩ | ⟨_, he, _⟩
+    · exact .inl (.andP h)
+    · cases he
+    · cases he
+  | notP _ ih =>
+    rcases ih with h | ⟨_, he, _⟩ | ⟨_, he, _⟩
+    · exact .inl (.notP h)
+    · cases he
+    · cases he
+  | group _ ih =>
+    rcases ih with h | ⟨_, he, _⟩ | ⟨_, he, _⟩
+    · exact .inl (.group h)
+    · cases he
+    · cases he
+  | push _ ih =>
+    rcases ih with h | ⟨_, he, _⟩ | ⟨_, he, _⟩
+    · exact .inl (.push h)
+    · cases he
+    · cases he
+  | rule _ ih =>
+    rcases ih with h | ⟨_, he, _⟩ | ⟨_, he, _⟩
+    · exact .inl (.rule h)
+    · cases he
+    · cases he
+  | rep1Rep _ ih =>
+    rcases ih with h | ⟨_, he, _⟩ | ⟨_, he, _⟩
+    · exact .inr (.inl ⟨_, rfl, .rep1 h⟩)
+    · cases he
+    · cases he
+  | repMinRep _ ih =>
+    rcases ih with h | ⟨_, he, _⟩ | ⟨_, he, _⟩
+    · exact .inr (.inl ⟨_, rfl, .repMin h⟩)
+    · cases he
+    · cases he
+  | repMaxOpt _ ih =>
+    rcases ih with h | ⟨_, he, _⟩ | ⟨_, he, _⟩
+    · exact .inr (.inr ⟨_, rfl, .repMax h⟩)
+    · cases he
+    · cases he
+  | repMinMaxOpt _ ih =>
+    rcases ih with h | ⟨_, he, _⟩ | ⟨_, he, _⟩
+    · exact .inr (.inr ⟨_, rfl, .repMinMax h⟩)
+    · cases he
+    · cases he
+
+/-- so the rule objects, identifiers and groups that `NameOK` / `TagOK` below mention are nodes
+    *written* in `e0` or in a rule body -/
+theorem Reach.rule_sub {g : Grammar} {e0 : Expr} {name : String} {mod : Nat} {sm : Bool} {body : Expr}
+    (h : Reach g e0 (.rule name mod sm body)) : Sub g e0 (.rule name mod sm body) := by
+  rcases h.core with h | ⟨_, he, _⟩ | ⟨_, he, _⟩
+  · exact h
+  · cases he
+  · cases he
+
+theorem Reach.ident_sub {g : Grammar} {e0 : Expr} {name : String} {tag : Option String}
+    (h : Reach g e0 (.ident name tag)) : Sub g e0 (.ident name tag) := by
+  rcases h.core with h | ⟨_, he, _⟩ | ⟨_, he, _⟩
+  · exact h
+  · cases he
+  · cases he
+
+theorem Reach.group_sub {g : Grammar} {e0 e : Expr} {tag : Option String}
+    (h : Reach g e0 (.group e tag)) : Sub g e0 (.group e tag) := by
+  rcases h.core with h | ⟨_, he, _⟩ | ⟨_, he, _⟩
+  · exact h
+  · cases he
+  · cases he
+
+/-- `nm` is the name of a non-silent rule of the grammar's table, or of a non-silent rule
+    object embedded in a reachable expression (how the built-in `EOI` shows up) -/
+def NameOK (g : Grammar) (e0 : Expr) (nm : String) : Prop :=
+  (∃ r ∈ g.rules, r.name = nm ∧ hasBit r.mod SILENT = false) ∨
+  (∃ mod sm body, Reach g e0 (.rule nm mod sm body) ∧ hasBit mod SILENT = false)
+
+theorem NameOK.trans {g : Grammar} {e0 e1 : Expr} {nm : String} (h0 : Reach g e1 e0)
+    (h : NameOK g e0 nm) : NameOK g e1 nm := by
+  rcases h with h | ⟨mod, sm, body, hr, hs⟩
+  · exact Or.inl h
+  · exact Or.inr ⟨mod, sm, body, h0.trans hr, hs⟩
+
+theorem Grammar.lookup_mem {g : Grammar} {name : String} {r : Rule} (h : g.lookup name = some r) :
+    r ∈ g.rules :=
+  List.mem_of_find?_eq_some h
+
+theorem Grammar.fusedSkip_mem {g : Grammar} {r : Rule} (h : g.fusedSkip = some r) : r ∈ g.rules := by
+  unfold Grammar.fusedSkip at h
+  cases hl : g.lookup "SKIP" with
+  | none => rw [hl] at h; cases h
+  | some r' =>
+    rw [hl] at h
+    simp only [] at h
+    split at h
+    · simp only [Option.some.injEq] at h; subst h; exact Grammar.lookup_mem hl
+    · cases h
+
+namespace L0
+
+variable (g : Grammar) (inp : Input) (e0 : Expr)
+
+/-- the property of a pair the names theorem is about -/
+abbrev NP : Pair → Prop := fun p => NameOK g e0 p.name
+
+def NamesOK (rec : Sem0) : Prop :=
+  ∀ x, Reach g e0 x → ∀ s s' ps, rec x s = .ok s' ps → AllPairs (NP g e0) ps
+
+variable {g e0}
+
+theorem ruleWrap_names {name : String} {mod : Nat} {s s1 s' : S0} {ps1 ps : List Pair}
+    (hN : hasBit mod SILENT = false → NameOK g e0 name) (hp : AllPairs (NP g e0) ps1)
+    (h : ruleWrap name mod s s1 ps1 = .ok s' ps) : AllPairs (NP g e0) ps := by
+  unfold ruleWrap at h
+  by_cases hS : hasBit mod SILENT = true
+  · simp only [hS, ↓reduceIte, R0.ok.injEq] at h
+    rw [← h.2]; exact hp
+  · simp only [hS, Bool.false_eq_true, ↓reduceIte, R0.ok.injEq] at h
+    rw [← h.2]
+    refine .cons (hN (by simpa using hS)) ?_ .nil
+    by_cases hA : hasBit mod ATOMIC = true
+    · simp only [hA, ↓reduceIte]; exact hp.visible
+    · simp only [hA, Bool.false_eq_true, ↓reduceIte]; exact hp
+
+theorem ruleApply_names {rec : Sem0} (hrec : NamesOK g e0 rec) {name : String} {mod : Nat} {body : Expr}
+    (hN : hasBit mod SILENT = false → NameOK g e0 name) (hb : Reach g e0 body)
+    {s s' : S0} {ps : List Pair} (h : ruleApply rec name mod body s = .ok s' ps) :
+    AllPairs (NP g e0) ps := by
+  unfold ruleApply at h
+  cases hr : rec body { s with atomic := ruleAtomic name mod s.atomic } with
+  | ok s1 ps1 =>
+    rw [hr] at h
+    exact ruleWrap_names hN (hrec _ hb _ _ _ hr) h
+  | fail => rw [hr] at h; cases h
+  | oof => rw [hr] at h; cases h
+  | stuck => rw [hr] at h; cases h
+
+/-- an application of a rule of the table -/
+theorem tableRule_names {rec : Sem0} (hrec : NamesOK g e0 rec) {r : Rule} (hr : r ∈ g.rules)
+    {s s' : S0} {ps : List Pair} (h : ruleApply rec r.name r.mod r.body s = .ok s' ps) :
+    AllPairs (NP g e0) ps :=
+  ruleApply_names hrec (fun hS => Or.inl ⟨r, hr, rfl, hS⟩) (.body hr) h
+
+theorem callRule_names {rec : Sem0} (hrec : NamesOK g e0 rec) {name : String}
+    {s s' : S0} {ps : List Pair} (h : callRule g rec name s = .ok s' ps) : AllPairs (NP g e0) ps := by
+  unfold callRule at h
+  cases hl : g.lookup name with
+  | none => rw [hl] at h; cases h
+  | some r => rw [hl] at h; exact tableRule_names hrec (Grammar.lookup_mem hl) h
+
+theorem trySkip_names {rec : Sem0} (hrec : NamesOK g e0 rec) {r : Option Rule}
+    (hr : ∀ r', r = some r' → r' ∈ g.rules) {s s' : S0} {ps : List Pair}
+    (h : trySkip rec r s = .matched s' ps) : AllPairs (NP g e0) ps := by
+  unfold trySkip at h
+  cases r with
+  | none => cases h
+  | some r =>
+    simp only [] at h
+    cases ha : ruleApply rec r.name r.mod r.body s with
+    | ok s1 ps1 =>
+      rw [ha] at h
+      simp only [Try0.matched.injEq] at h
+      rw [← h.2]
+      exact tableRule_names hrec (hr r rfl) ha
+    | fail => rw [ha] at h; cases h
+    | oof => rw [ha] at h; cases h
+    | stuck => rw [ha] at h; cases h
+
+/-- a `stop` is never a success -/
+theorem trySkip_stop_not_ok {rec : Sem0} {r : Option Rule} {s : S0} {x : R0}
+    (h : trySkip rec r s = .stop x) (s' : S0) (ps : List Pair) : x ≠ .ok s' ps := by
+  unfold trySkip at h
+  cases r with
+  | none => cases h
+  | some w =>
+    simp only [] at h
+    cases ha : ruleApply rec w.name w.mod w.body s with
+    | ok _ _ => rw [ha] at h; cases h
+    | fail => rw [ha] at h; cases h
+    | oof => rw [ha] at h; simp only [Try0.stop.injEq] at h; subst h; simp
+    | stuck => rw [ha] at h; simp only [Try0.stop.injEq] at h; subst h; simp
+
+theorem skipLoop_names {rec : Sem0} (hrec : NamesOK g e0 rec) {ws cm : Option Rule}
+    (hws : ∀ r', ws = some r' → r' ∈ g.rules) (hcm : ∀ r', cm = some r' → r' ∈ g.rules)
+    {s' : S0} {ps : List Pair} :
+    ∀ (k : Nat) (s : S0) (acc : List Pair), AllPairs (NP g e0) acc →
+      skipLoop rec ws cm k s acc = .ok s' ps → AllPairs (NP g e0) ps := by
+  intro k
+  induction k with
+  | zero => intro s acc _ h; simp [skipLoop] at h
+  | succ k ih =>
+    intro s acc hacc h
+    simp only [skipLoop] at h
+    cases h1 : trySkip rec ws s with
+    | matched s1 ps1 =>
+      rw [h1] at h
+      exact ih s1 _ (hacc.append (trySkip_names hrec hws h1)) h
+    | stop r => rw [h1] at h; exact absurd h (trySkip_stop_not_ok h1 _ _)
+    | no =>
+      rw [h1] at h
+      simp only [] at h
+      cases h2 : trySkip rec cm s with
+      | matched s1 ps1 =>
+        rw [h2] at h
+        exact ih s1 _ (hacc.append (trySkip_names hrec hcm h2)) h
+      | stop r => rw [h2] at h; exact absurd h (trySkip_stop_not_ok h2 _ _)
+      | no =>
+        rw [h2] at h
+        simp only [R0.ok.injEq] at h
+        rw [← h.2]; exact hacc
+
+theorem skip_names {rec : Sem0} (hrec : NamesOK g e0 rec) {k : Nat} {s s' : S0} {ps : List Pair}
+    (h : skip g rec k s = .ok s' ps) : AllPairs (NP g e0) ps := by
+  unfold skip at h
+  by_cases ha : s.atomic = true
+  · simp only [ha, ↓reduceIte, R0.ok.injEq] at h
+    rw [← h.2]; exact .nil
+  · simp only [ha, Bool.false_eq_true, ↓reduceIte] at h
+    cases hf : g.fusedSkip with
+    | some r => rw [hf] at h; exact tableRule_names hrec (Grammar.fusedSkip_mem hf) h
+    | none =>
+      rw [hf] at h
+      simp only [] at h
+      by_cases hn : ((g.lookup "WHITESPACE").isNone && (g.lookup "COMMENT").isNone) = true
+      · simp only [hn, ↓reduceIte, R0.ok.injEq] at h
+        rw [← h.2]; exact .nil
+      · simp only [hn, Bool.false_eq_true, ↓reduceIte] at h
+        exact skipLoop_names hrec (fun _ hl => Grammar.lookup_mem hl) (fun _ hl => Grammar.lookup_mem hl)
+          k s [] .nil h
+
+theorem seqL_names {rec : Sem0} (hrec : NamesOK g e0 rec) (k : Nat) {s' : S0} {ps : List Pair} :
+    ∀ (es : List Expr), (∀ x ∈ es, Reach g e0 x) → ∀ (s : S0) (acc : List Pair),
+      AllPairs (NP g e0) acc → seqL g rec k es s acc = .ok s' ps → AllPairs (NP g e0) ps := by
+  intro es
+  induction es with
+  | nil =>
+    intro _ s acc hacc h
+    simp only [seqL, R0.ok.injEq] at h
+    rw [← h.2]; exact hacc
+  | cons e rest ih =>
+    intro hes s acc hacc h
+    have hrest : ∀ x ∈ rest, Reach g e0 x := fun x hx => hes x (List.mem_cons_of_mem _ hx)
+    simp only [seqL] at h
+    cases he : rec e s with
+    | ok s1 ps1 =>
+      rw [he] at h
+      simp only [] at h
+      have c := hrec e (hes e (List.mem_cons_self ..)) _ _ _ he
+      by_cases hr : rest.isEmpty = true
+      · simp only [hr, ↓reduceIte, R0.ok.injEq] at h
+        rw [← h.2]; exact hacc.append c
+      · simp only [hr, Bool.false_eq_true, ↓reduceIte] at h
+        cases hsk : skip g rec k s1 with
+        | ok s2 tps =>
+          rw [hsk] at h
+          exact ih hrest s2 _ ((hacc.append c).append (skip_names hrec hsk)) h
+        | fail => rw [hsk] at h; exact ih hrest s1 _ (hacc.append c) h
+        | oof => rw [hsk] at h; cases h
+        | stuck => rw [hsk] at h; cases h
+    | fail => rw [he] at h; cases h
+    | oof => rw [he] at h; cases h
+    | stuck => rw [he] at h; cases h
+
+theorem choiceL_names {rec : Sem0} (hrec : NamesOK g e0 rec) {s s' : S0} {ps : List Pair} :
+    ∀ (es : List Expr), (∀ x ∈ es, Reach g e0 x) → choiceL rec es s = .ok s' ps →
+      AllPairs (NP g e0) ps := by
+  intro es
+  induction es with
+  | nil => intro _ h; simp [choiceL] at h
+  | cons e rest ih =>
+    intro hes h
+    simp only [choiceL] at h
+    cases he : rec e s with
+    | ok s1 ps1 =>
+      rw [he] at h
+      simp only [R0.ok.injEq] at h
+      rw [← h.2]
+      exact hrec e (hes e (List.mem_cons_self ..)) _ _ _ he
+    | fail => rw [he] at h; exact ih (fun x hx => hes x (List.mem_cons_of_mem _ hx)) h
+    | oof => rw [he] at h; cases h
+    | stuck => rw [he] at h; cases h
+
+theorem repLoop_names {rec : Sem0} (hrec : NamesOK g e0 rec) {e : Expr} (he0 : Reach g e0 e) (kk : Nat)
+    {s' : S0} {ps : List Pair} :
+    ∀ (k : Nat) (first : Bool) (s : S0) (acc : List Pair), AllPairs (NP g e0) acc →
+      repLoop g rec e k kk first s acc = .ok s' ps → AllPairs (NP g e0) ps := by
+  intro k
+  induction k with
+  | zero => intro first s acc _ h; simp [repLoop] at h
+  | succ k ih =>
+    intro first s acc hacc h
+    simp only [repLoop] at h
+    have hA : ∀ s1 tps, (if first = true then R0.ok s [] else skip g rec kk s) = .ok s1 tps →
+        AllPairs (NP g e0) tps := by
+      intro s1 tps hx
+      by_cases hf : first = true
+      · simp only [hf, ↓reduceIte, R0.ok.injEq] at hx
+        rw [← hx.2]; exact .nil
+      · simp only [hf, Bool.false_eq_true, ↓reduceIte] at hx
+        exact skip_names hrec hx
+    cases hsk : (if first = true then R0.ok s [] else skip g rec kk s) with
+    | ok s1 tps =>
+      rw [hsk] at h
+      simp only [] at h
+      cases he : rec e s1 with
+      | ok s2 ps2 =>
+        rw [he] at h
+        exact ih false s2 _ ((hacc.append (hA s1 tps hsk)).append (hrec e he0 _ _ _ he)) h
+      | fail =>
+        rw [he] at h
+        simp only [R0.ok.injEq] at h
+        rw [← h.2]; exact hacc
+      | oof => rw [he] at h; cases h
+      | stuck => rw [he] at h; cases h
+    | fail =>
+      rw [hsk] at h
+      simp only [R0.ok.injEq] at h
+      rw [← h.2]; exact hacc
+    | oof => rw [hsk] at h; cases h
+    | stuck => rw [hsk] at h; cases h
+
+theorem ok_nil_all {P : Pair → Prop} {r s' : S0} {ps : List Pair} (h : R0.ok r [] = R0.ok s' ps) :
+    AllPairs P ps := by
+  simp only [R0.ok.injEq] at h
+  rw [← h.2]; exact .nil
+
+
+theorem step_names {rec : Sem0} (k : Nat) (hrec : NamesOK g e0 rec) :
+    NamesOK g e0 (step g inp k rec) := by
+  intro x hx s s' ps h
+  cases x with
+  | ident name tag => exact callRule_names hrec h
+  | rule name mod sm body =>
+    exact ruleApply_names hrec (fun hS => Or.inr ⟨mod, sm, body, hx, hS⟩) (.rule hx) h
+  | seq es => exact seqL_names hrec k es (fun y hy => .seq hx hy) s [] .nil h
+  | choice es => exact choiceL_names hrec es (fun y hy => .choice hx hy) h
+  | opt e =>
+    simp only [step] at h
+    cases he : rec e s with
+    | ok s1 ps1 => rw [he] at h; simp only [] at h; rw [h] at he; exact hrec e (.opt hx) _ _ _ he
+    | fail => rw [he] at h; exact ok_nil_all h
+    | oof => rw [he] at h; cases h
+    | stuck => rw [he] at h; cases h
+  | rep e => exact repLoop_names hrec (.rep hx) k k true s [] .nil h
+  | rep1 e =>
+    refine seqL_names hrec k _ ?_ s [] .nil h
+    intro y hy
+    simp only [List.mem_cons, List.not_mem_nil, or_false] at hy
+    rcases hy with rfl | rfl
+    · exact .rep1 hx
+    · exact .rep1Rep hx
+  | repExact e n =>
+    refine seqL_names hrec k _ ?_ s [] .nil h
+    intro y hy
+    rw [(List.mem_replicate.mp hy).2]; exact .repExact hx
+  | repMin e n =>
+    refine seqL_names hrec k _ ?_ s [] .nil h
+    intro y hy
+    rcases List.mem_append.mp hy with hy | hy
+    · rw [(List.mem_replicate.mp hy).2]; exact .repMin hx
+    · simp only [List.mem_cons, List.not_mem_nil, or_false] at hy
+      rw [hy]; exact .repMinRep hx
+  | repMax e n =>
+    refine seqL_names hrec k _ ?_ s [] .nil h
+    intro y hy
+    rw [(List.mem_replicate.mp hy).2]; exact .repMaxOpt hx
+  | repMinMax e m n =>
+    refine seqL_names hrec k _ ?_ s [] .nil h
+    intro y hy
+    rcases List.mem_append.mp hy with hy | hy
+    · rw [(List.mem_replicate.mp hy).2]; exact .repMinMax hx
+    · rw [(List.mem_replicate.mp hy).2]; exact .repMinMaxOpt hx
+  | andP e =>
+    simp only [step] at h
+    cases he : rec e s with
+    | ok s1 ps1 => rw [he] at h; exact ok_nil_all h
+    | fail => rw [he] at h; cases h
+    | oof => rw [he] at h; cases h
+    | stuck => rw [he] at h; cases h
+  | notP e =>
+    simp only [step] at h
+    cases he : rec e s with
+    | ok s1 ps1 => rw [he] at h; cases h
+    | fail => rw [he] at h; exact ok_nil_all h
+    | oof => rw [he] at h; cases h
+    | stuck => rw [he] at h; cases h
+  | group e tag => simp only [step] at h; exact hrec e (.group hx) _ _ _ h
+  | push e =>
+    simp only [step] at h
+    cases he : rec e s with
+    | ok s1 ps1 =>
+      rw [he] at h
+      simp only [R0.ok.injEq] at h
+      rw [← h.2]
+      exact hrec e (.push hx) _ _ _ he
+    | fail => rw [he] at h; cases h
+    | oof => rw [he] at h; cases h
+    | stuck => rw [he] at h; cases h
+  | _ =>
+    simp only [step, matchLits] at h
+    repeat' (split at h)
+    all_goals first | exact ok_nil_all h | cases h
+
+theorem run_names : ∀ n, NamesOK g e0 (run g inp n) := by
+  intro n
+  induction n with
+  | zero => intro x _ s s' ps h; simp [run] at h
+  | succ n ih => exact step_names inp n ih
+
+/-- **C06, names (specification level).**  Every pair, at every depth, of a successful run of
+    `e` carries the name of a non-silent rule of the grammar's table or of a non-silent rule
+    object embedded in an expression reachable from `e`. -/
+theorem names_are_rules {n : Nat} {e : Expr} {s s' : S0} {ps : List Pair}
+    (h : run g inp n e s = .ok s' ps) : AllPairs (fun p => NameOK g e p.name) ps :=
+  run_names inp n e .root s s' ps h
+
+/-- the same for `parse`, where every expression comes from the rule table: the embedded rule
+    objects are those reachable from the rule bodies (whatever `e0` is) -/
+theorem parse_names_are_rules {fuel : Nat} {start : String} {k : Nat} {s : S0} {ps : List Pair}
+    (h : parse g inp fuel start k = .ok s ps) (e0 : Expr) : AllPairs (fun p => NameOK g e0 p.name) ps := by
+  unfold parse at h
+  cases hl : g.lookup start with
+  | none => rw [hl] at h; cases h
+  | some r =>
+    rw [hl] at h
+    exact tableRule_names (run_names inp fuel) (Grammar.lookup_mem hl) h
+
+end L0
+
+/-! ## Part 6: tags are tags written in the grammar (interpreter model L1) -/
+
+/-- `t` is the tag of a reachable identifier or group node -/
+def TagOK (g : Grammar) (e0 : Expr) (t : String) : Prop :=
+  (∃ nm, Reach g e0 (.ident nm (some t))) ∨ (∃ e, Reach g e0 (.group e (some t)))
+
+theorem TagOK.trans {g : Grammar} {e0 e1 : Expr} {t : String} (h0 : Reach g e1 e0)
+    (h : TagOK g e0 t) : TagOK g e1 t := by
+  rcases h with ⟨nm, h⟩ | ⟨e, h⟩
+  · exact Or.inl ⟨nm, h0.trans h⟩
+  · exact Or.inr ⟨e, h0.trans h⟩
+
+namespace L1
+
+variable (g : Grammar) (inp : Input) (e0 : Expr)
+
+/-- the property of a pair the tags theorem is about -/
+abbrev TP : Pair → Prop := fun p => ∀ t, p.tag = some t → TagOK g e0 t
+
+/-- every tag waiting on `tag_stack` is a grammar tag -/
+def TS (c : PState) : Prop := ∀ t ∈ c.tagStack, TagOK g e0 t
+
+/-- stated for failures too: nothing restores `tag_stack` -/
+def TagsOK (rec : Sem1) : Prop :=
+  ∀ x, Reach g e0 x → ∀ c m c' ps, TS g e0 c → rec x c = .done m c' ps →
+    TS g e0 c' ∧ AllPairs (TP g e0) ps
+
+variable {g e0}
+
+theorem TS.of_eq {c c' : PState} (h : TS g e0 c) (e : c'.tagStack = c.tagStack) : TS g e0 c' := by
+  intro t ht; rw [e] at ht; exact h t ht
+
+theorem TS.tail {c c' : PState} (h : TS g e0 c) (e : c'.tagStack = c.tagStack.tail) : TS g e0 c' := by
+  intro t ht; rw [e] at ht; exact h t (List.mem_of_mem_tail ht)
+
+theorem ts_init (k : Nat) : TS g e0 (PState.init k) := by
+  intro t ht; simp [PState.init] at ht
+
+@[simp] theorem checkpoint_tagStack (c : PState) : c.checkpoint.tagStack = c.tagStack := rfl
+@[simp] theorem ok_tagStack (c : PState) : c.ok.tagStack = c.tagStack := rfl
+@[simp] theorem restore_tagStack (c : PState) : c.restore.tagStack = c.tagStack := rfl
+
+theorem ruleEnter_tagStack (name : String) (mod : Nat) (c : PState) :
+    (ruleEnter name mod c).tagStack = c.tagStack := by
+  unfold ruleEnter
+  split
+  · rfl
+  · split <;> rfl
+
+/-- what every result of the helpers below satisfies -/
+def Post (r : R1) : Prop :=
+  ∀ m c' ps, r = .done m c' ps → TS g e0 c' ∧ AllPairs (TP g e0) ps
+
+theorem Post.oof : Post (g := g) (e0 := e0) .oof := by intro m c' ps h; cases h
+theorem Post.exc (k : PyExc) : Post (g := g) (e0 := e0) (.exc k) := by intro m c' ps h; cases h
+theorem Post.done {m : Bool} {c : PState} {ps : List Pair} (h1 : TS g e0 c) (h2 : AllPairs (TP g e0) ps) :
+    Post (g := g) (e0 := e0) (.done m c ps) := by
+  intro m' c' ps' h
+  simp only [R1.done.injEq] at h
+  obtain ⟨_, rfl, rfl⟩ := h
+  exact ⟨h1, h2⟩
+
+theorem failT_tags {c : PState} (hc : TS g e0 c) : Post (g := g) (e0 := e0) (failT c) := by
+  unfold failT
+  cases hf : c.fail none false with
+  | none => exact .exc _
+  | some c1 => exact .done (hc.of_eq (fail_same hf).2.2.2.2.2.2.1) .nil
+
+theorem ruleExit_tags (name : String) (mod : Nat) (start : Nat) (matched : Bool) {c2 : PState}
+    {children : List Pair} (hc : TS g e0 c2) (hch : AllPairs (TP g e0) children) :
+    Post (g := g) (e0 := e0) (ruleExit name mod start matched c2 children) := by
+  unfold ruleExit
+  generalize hc3 : (if ruleScoped name mod then ({ c2 with adepth := c2.adepth.restore } : PState) else c2) = c3
+  have h3 : c3.tagStack = c2.tagStack := by
+    subst hc3; split <;> rfl
+  have hc3' : TS g e0 c3 := hc.of_eq h3
+  simp only []
+  cases hp : c3.rstack.pop with
+  | none => exact .exc _
+  | some q =>
+    obtain ⟨x, rs⟩ := q
+    simp only []
+    cases matched with
+    | false => exact .done (hc3'.of_eq rfl) .nil
+    | true =>
+      simp only [Bool.not_true, Bool.false_eq_true, ↓reduceIte]
+      by_cases hS : hasBit mod SILENT = true
+      · simp only [hS, ↓reduceIte]
+        exact .done (hc3'.of_eq rfl) hch
+      · simp only [hS, Bool.false_eq_true, ↓reduceIte]
+        have hvis : AllPairs (TP g e0) (if hasBit mod ATOMIC = true then visibleList children else children) := by
+          split
+          · exact hch.visible
+          · exact hch
+        cases ht : c3.tagStack with
+        | nil =>
+          simp only []
+          refine .done ?_ (.cons ?_ hvis .nil)
+          · intro t h; simp at h
+          · intro t h; cases h
+        | cons t ts =>
+          simp only []
+          refine .done ?_ (.cons ?_ hvis .nil)
+          · intro t' h
+            exact hc3' t' (by rw [ht]; exact List.mem_cons_of_mem _ h)
+          · intro t' h
+            simp only [Pair.tag, Option.some.injEq] at h
+            subst h
+            exact hc3' t (by rw [ht]; exact List.mem_cons_self ..)
+
+theorem ruleParse_tags {rec : Sem1} (hrec : TagsOK g e0 rec) (name : String) (mod : Nat) {body : Expr}
+    (hb : Reach g e0 body) {c : PState} (hc : TS g e0 c) :
+    Post (g := g) (e0 := e0) (ruleParse rec name mod body c) := by
+  unfold ruleParse
+  have hen : TS g e0 (ruleEnter name mod { c with rstack := c.rstack.push name }) :=
+    hc.of_eq (by rw [ruleEnter_tagStack])
+  cases hr : rec body (ruleEnter name mod { c with rstack := c.rstack.push name }) with
+  | oof => exact .oof
+  | exc k => exact .exc k
+  | done matched c2 children =>
+    obtain ⟨a, b⟩ := hrec body hb _ _ _ _ hen hr
+    exact ruleExit_tags name mod c.pos matched a b
+
+theorem withTag_tags {tag : Option String} (htag : ∀ t, tag = some t → TagOK g e0 t) {c : PState}
+    (hc : TS g e0 c) {body : PState → R1} (hbody : ∀ d, TS g e0 d → Post (g := g) (e0 := e0) (body d)) :
+    Post (g := g) (e0 := e0) (withTag tag c body) := by
+  unfold withTag
+  cases tag with
+  | none => exact hbody c hc
+  | some t =>
+    simp only []
+    have hd : TS g e0 { c with tagStack := t :: c.tagStack } := by
+      intro t' ht'
+      simp only [List.mem_cons] at ht'
+      rcases ht' with rfl | ht'
+      · exact htag _ rfl
+      · exact hc t' ht'
+    have hb := hbody _ hd
+    cases hr : body { c with tagStack := t :: c.tagStack } with
+    | oof => exact .oof
+    | exc k => exact .exc k
+    | done m c' ps =>
+      obtain ⟨a, b⟩ := hb m c' ps hr
+      exact .done (a.tail rfl) b
+
+theorem callRule_tags {rec : Sem1} (hrec : TagsOK g e0 rec) (name : String) {c : PState}
+    (hc : TS g e0 c) : Post (g := g) (e0 := e0) (callRule g rec name c) := by
+  unfold callRule
+  cases hl : g.lookup name with
+  | none => exact .exc _
+  | some r => exact ruleParse_tags hrec r.name r.mod (.body (Grammar.lookup_mem hl)) hc
+
+/-- one guarded attempt at a trivia rule -/
+def PostTry : TryR → Prop
+  | .matched c' ps => TS g e0 c' ∧ AllPairs (TP g e0) ps
+  | .no c1 => TS g e0 c1
+  | .stop r => ∀ m c' ps, r ≠ .done m c' ps
+
+theorem tryTrivia_tags {rec : Sem1} (hrec : TagsOK g e0 rec) {r : Option Rule}
+    (hr : ∀ r', r = some r' → r' ∈ g.rules) {c : PState} (hc : TS g e0 c) :
+    PostTry (g := g) (e0 := e0) (tryTrivia rec r c) := by
+  unfold tryTrivia
+  cases r with
+  | none => exact hc
+  | some r =>
+    simp only []
+    have hp := ruleParse_tags hrec r.name r.mod (.body (hr r rfl)) (c := c.checkpoint) (hc.of_eq rfl)
+    cases hx : ruleParse rec r.name r.mod r.body c.checkpoint with
+    | oof => intro m c' ps h; cases h
+    | exc k => intro m c' ps h; cases h
+    | done m c' ps =>
+      obtain ⟨a, b⟩ := hp m c' ps hx
+      cases m with
+      | true => exact ⟨a.of_eq rfl, b⟩
+      | false => exact a.of_eq rfl
+
+theorem triviaLoop_tags {rec : Sem1} (hrec : TagsOK g e0 rec) {ws cm : Option Rule}
+    (hws : ∀ r', ws = some r' → r' ∈ g.rules) (hcm : ∀ r', cm = some r' → r' ∈ g.rules) :
+    ∀ (k : Nat) (c : PState) (acc : List Pair), TS g e0 c → AllPairs (TP g e0) acc →
+      Post (g := g) (e0 := e0) (triviaLoop rec ws cm k c acc) := by
+  intro k
+  induction k with
+  | zero => intro c acc _ _; simp only [triviaLoop]; exact .oof
+  | succ k ih =>
+    intro c acc hc hacc
+    simp only [triviaLoop]
+    have h1 := tryTrivia_tags hrec hws hc
+    cases hx : tryTrivia rec ws c with
+    | matched c' ps =>
+      rw [hx] at h1
+      exact ih c' _ h1.1 (hacc.append h1.2)
+    | stop r =>
+      rw [hx] at h1
+      intro m c' ps h
+      exact absurd h (h1 m c' ps)
+    | no c1 =>
+      rw [hx] at h1
+      simp only []
+      have h2 := tryTrivia_tags hrec hcm (c := c1) h1
+      cases hy : tryTrivia rec cm c1 with
+      | matched c' ps =>
+        rw [hy] at h2
+        exact ih c' _ h2.1 (hacc.append h2.2)
+      | stop r =>
+        rw [hy] at h2
+        intro m c' ps h
+        exact absurd h (h2 m c' ps)
+      | no c2 =>
+        rw [hy] at h2
+        exact .done h2 hacc
+
+theorem parseTrivia_tags {rec : Sem1} (hrec : TagsOK g e0 rec) (k : Nat) {c : PState}
+    (hc : TS g e0 c) : Post (g := g) (e0 := e0) (parseTrivia g rec k c) := by
+  unfold parseTrivia
+  by_cases ha : c.adepth.val > 0
+  · simp only [ha, ↓reduceIte]; exact .done hc .nil
+  · simp only [ha, ↓reduceIte]
+    cases hf : g.fusedSkip with
+    | some r =>
+      simp only []
+      exact ruleParse_tags hrec r.name r.mod (.body (Grammar.fusedSkip_mem hf)) hc
+    | none =>
+      simp only []
+      by_cases hn : ((g.lookup "WHITESPACE").isNone && (g.lookup "COMMENT").isNone) = true
+      · simp only [hn, ↓reduceIte]; exact .done hc .nil
+      · simp only [hn, Bool.false_eq_true, ↓reduceIte]
+        have hl := triviaLoop_tags hrec (ws := g.lookup "WHITESPACE") (cm := g.lookup "COMMENT")
+          (fun _ hl => Grammar.lookup_mem hl) (fun _ hl => Grammar.lookup_mem hl) k
+          { c with suppress := true } [] (hc.of_eq rfl) .nil
+        cases hx : triviaLoop rec (g.lookup "WHITESPACE") (g.lookup "COMMENT") k { c with suppress := true } [] with
+        | oof => exact .oof
+        | exc kx => exact .exc kx
+        | done m c' ps =>
+          obtain ⟨a, b⟩ := hl m c' ps hx
+          exact .done (a.of_eq rfl) b
+
+theorem seqParse_tags {rec : Sem1} (hrec : TagsOK g e0 rec) (k : Nat) :
+    ∀ (es : List Expr), (∀ x ∈ es, Reach g e0 x) → ∀ (c : PState) (acc : List Pair),
+      TS g e0 c → AllPairs (TP g e0) acc → Post (g := g) (e0 := e0) (seqParse g rec k es c acc) := by
+  intro es
+  induction es with
+  | nil => intro _ c acc hc hacc; simp only [seqParse]; exact .done hc hacc
+  | cons e rest ih =>
+    intro hes c acc hc hacc
+    have hrest : ∀ x ∈ rest, Reach g e0 x := fun x hx => hes x (List.mem_cons_of_mem _ hx)
+    simp only [seqParse]
+    cases he : rec e c with
+    | oof => exact .oof
+    | exc kx => exact .exc kx
+    | done m c1 ps =>
+      obtain ⟨a, b⟩ := hrec e (hes e (List.mem_cons_self ..)) _ _ _ _ hc he
+      cases m with
+      | false => exact .done a .nil
+      | true =>
+        simp only []
+        by_cases hr : rest.isEmpty = true
+        · simp only [hr, ↓reduceIte]; exact .done a (hacc.append b)
+        · simp only [hr, Bool.false_eq_true, ↓reduceIte]
+          have ht := parseTrivia_tags hrec k a
+          cases hx : parseTrivia g rec k c1 with
+          | oof => exact .oof
+          | exc kx => exact .exc kx
+          | done m2 c2 tps =>
+            obtain ⟨a2, b2⟩ := ht m2 c2 tps hx
+            exact ih hrest c2 _ a2 ((hacc.append b).append b2)
+
+theorem choiceParse_tags {rec : Sem1} (hrec : TagsOK g e0 rec) :
+    ∀ (es : List Expr), (∀ x ∈ es, Reach g e0 x) → ∀ (c : PState),
+      TS g e0 c → Post (g := g) (e0 := e0) (choiceParse rec es c) := by
+  intro es
+  induction es with
+  | nil => intro _ c hc; simp only [choiceParse]; exact .done hc .nil
+  | cons e rest ih =>
+    intro hes c hc
+    simp only [choiceParse]
+    cases he : rec e c.checkpoint with
+    | oof => exact .oof
+    | exc kx => exact .exc kx
+    | done m c1 ps =>
+      obtain ⟨a, b⟩ := hrec e (hes e (List.mem_cons_self ..)) _ _ _ _ (hc.of_eq (by rfl)) he
+      cases m with
+      | true => exact .done (a.of_eq rfl) b
+      | false => exact ih (fun x hx => hes x (List.mem_cons_of_mem _ hx)) c1.restore (a.of_eq rfl)
+
+theorem repLoop_tags {rec : Sem1} (hrec : TagsOK g e0 rec) {e : Expr} (he0 : Reach g e0 e) (kk : Nat) :
+    ∀ (k : Nat) (first : Bool) (c : PState) (acc : List Pair), TS g e0 c → AllPairs (TP g e0) acc →
+      Post (g := g) (e0 := e0) (repLoop g rec e k kk first c acc) := by
+  intro k
+  induction k with
+  | zero => intro first c acc _ _; simp only [repLoop]; exact .oof
+  | succ k ih =>
+    intro first c acc hc hacc
+    simp only [repLoop]
+    have hT : Post (g := g) (e0 := e0)
+        (if first = true then R1.done true c.checkpoint [] else parseTrivia g rec kk c.checkpoint) := by
+      by_cases hf : first = true
+      · simp only [hf, ↓reduceIte]; exact .done (hc.of_eq rfl) .nil
+      · simp only [hf, Bool.false_eq_true, ↓reduceIte]
+        exact parseTrivia_tags hrec kk (hc.of_eq rfl)
+    cases hx : (if first = true then R1.done true c.checkpoint [] else parseTrivia g rec kk c.checkpoint) with
+    | oof => exact .oof
+    | exc kx => exact .exc kx
+    | done m c1 tps =>
+      obtain ⟨a1, b1⟩ := hT m c1 tps hx
+      simp only []
+      cases he : rec e c1 with
+      | oof => exact .oof
+      | exc kx => exact .exc kx
+      | done m2 c2 ps =>
+        obtain ⟨a2, b2⟩ := hrec e he0 _ _ _ _ a1 he
+        cases m2 with
+        | true => exact ih false c2.ok _ (a2.of_eq rfl) ((hacc.append b1).append b2)
+        | false => exact .done (a2.of_eq rfl) hacc
+
+theorem popAllLoop_tags : ∀ (k : Nat) (c : PState) (position : Nat), TS g e0 c →
+    Post (g := g) (e0 := e0) (popAllLoop inp k c position) := by
+  intro k
+  induction k with
+  | zero => intro c position _; simp only [popAllLoop]; exact .oof
+  | succ k ih =>
+    intro c position hc
+    simp only [popAllLoop]
+    cases hp : c.ustack.pop with
+    | none => exact .done (hc.of_eq rfl) .nil
+    | some q =>
+      obtain ⟨lit, us⟩ := q
+      simp only []
+      by_cases hm : startsWithAt inp lit position = true
+      · simp only [hm, ↓reduceIte]
+        exact ih _ _ (hc.of_eq rfl)
+      · simp only [hm, Bool.false_eq_true, ↓reduceIte]
+        exact failT_tags (hc.of_eq rfl)
+
+theorem step_tags {rec : Sem1} (k : Nat) (hrec : TagsOK g e0 rec) :
+    TagsOK g e0 (step g inp k rec) := by
+  intro x hx c m c' ps hc
+  -- every case proves `Post (step … x c)`
+  suffices hpost : Post (g := g) (e0 := e0) (step g inp k rec x c) from hpost m c' ps
+  have hnil : ∀ {m : Bool} {d : PState}, d.tagStack = c.tagStack →
+      Post (g := g) (e0 := e0) (.done m d []) := fun e => .done (hc.of_eq e) .nil
+  cases x with
+  | str s =>
+    simp only [step]
+    split
+    · exact hnil rfl
+    · exact failT_tags hc
+  | ci s =>
+    simp only [step]
+    split
+    · exact hnil rfl
+    · exact failT_tags hc
+  | range a b =>
+    simp only [step]
+    split
+    · split
+      · exact hnil rfl
+      · exact failT_tags hc
+    · exact failT_tags hc
+  | ident name tag =>
+    simp only [step]
+    refine withTag_tags ?_ hc (fun d hd => callRule_tags hrec name hd)
+    intro t ht; subst ht; exact Or.inl ⟨name, hx⟩
+  | rule name mod sm body => exact ruleParse_tags hrec name mod (.rule hx) hc
+  | seq es => exact seqParse_tags hrec k es (fun y hy => .seq hx hy) c [] hc .nil
+  | choice es => exact choiceParse_tags hrec es (fun y hy => .choice hx hy) c hc
+  | opt e =>
+    simp only [step]
+    cases he : rec e c.checkpoint with
+    | oof => exact .oof
+    | exc kx => exact .exc kx
+    | done m1 c1 ps1 =>
+      obtain ⟨a, b⟩ := hrec e (.opt hx) _ _ _ _ (hc.of_eq (by rfl)) he
+      cases m1 with
+      | true => exact .done (a.of_eq rfl) b
+      | false => exact .done (a.of_eq rfl) .nil
+  | rep e => exact repLoop_tags hrec (.rep hx) k k true c [] hc .nil
+  | rep1 e =>
+    refine seqParse_tags hrec k _ ?_ c [] hc .nil
+    intro y hy
+    simp only [List.mem_cons, List.not_mem_nil, or_false] at hy
+    rcases hy with rfl | rfl
+    · exact .rep1 hx
+    · exact .rep1Rep hx
+  | repExact e n =>
+    refine seqParse_tags hrec k _ ?_ c [] hc .nil
+    intro y hy
+    rw [(List.mem_replicate.mp hy).2]; exact .repExact hx
+  | repMin e n =>
+    refine seqParse_tags hrec k _ ?_ c [] hc .nil
+    intro y hy
+    rcases List.mem_append.mp hy with hy | hy
+    · rw [(List.mem_replicate.mp hy).2]; exact .repMin hx
+    · simp only [List.mem_cons, List.not_mem_nil, or_false] at hy
+      rw [hy]; exact .repMinRep hx
+  | repMax e n =>
+    refine seqParse_tags hrec k _ ?_ c [] hc .nil
+    intro y hy
+    rw [(List.mem_replicate.mp hy).2]; exact .repMaxOpt hx
+  | repMinMax e m n =>
+    refine seqParse_tags hrec k _ ?_ c [] hc .nil
+    intro y hy
+    rcases List.mem_append.mp hy with hy | hy
+    · rw [(List.mem_replicate.mp hy).2]; exact .repMinMax hx
+    · rw [(List.mem_replicate.mp hy).2]; exact .repMinMaxOpt hx
+  | andP e =>
+    simp only [step]
+    cases he : rec e c.checkpoint with
+    | oof => exact .oof
+    | exc kx => exact .exc kx
+    | done m1 c1 ps1 =>
+      obtain ⟨a, _⟩ := hrec e (.andP hx) _ _ _ _ (hc.of_eq (by rfl)) he
+      exact .done (a.of_eq rfl) .nil
+  | notP e =>
+    simp only [step]
+    cases he : rec e { c.checkpoint with negDepth := c.checkpoint.negDepth + 1 } with
+    | oof => exact .oof
+    | exc kx => exact .exc kx
+    | done m1 c1 ps1 =>
+      obtain ⟨a, _⟩ := hrec e (.notP hx) _ _ _ _ (hc.of_eq (by rfl)) he
+      simp only []
+      cases m1 with
+      | false => simp only [Bool.false_eq_true, ↓reduceIte]; exact .done (a.of_eq rfl) .nil
+      | true =>
+        simp only [↓reduceIte]
+        cases hf : c1.restore.fail (failedName e) true with
+        | none => exact .exc _
+        | some c3 =>
+          simp only []
+          exact .done (a.of_eq (by simp only [(fail_same hf).2.2.2.2.2.2.1, restore_tagStack])) .nil
+  | group e tag =>
+    simp only [step]
+    refine withTag_tags ?_ hc (fun d hd => ?_)
+    · intro t ht; subst ht; exact Or.inr ⟨e, hx⟩
+    · intro m1 c1 ps1 h1; exact hrec e (.group hx) _ _ _ _ hd h1
+  | push e =>
+    simp only [step]
+    cases he : rec e c with
+    | oof => exact .oof
+    | exc kx => exact .exc kx
+    | done m1 c1 ps1 =>
+      obtain ⟨a, b⟩ := hrec e (.push hx) _ _ _ _ hc he
+      cases m1 with
+      | true => exact .done (a.of_eq rfl) b
+      | false => exact .done a .nil
+  | pushLit s => simp only [step]; exact hnil rfl
+  | peekSlice a b =>
+    simp only [step]
+    split
+    · exact hnil rfl
+    · exact failT_tags hc
+  | peek =>
+    simp only [step]
+    split
+    · exact hnil rfl
+    · split
+      · exact hnil rfl
+      · exact failT_tags hc
+  | peekAll =>
+    simp only [step]
+    split
+    · exact hnil rfl
+    · exact failT_tags hc
+  | pop =>
+    simp only [step]
+    split
+    · exact hnil rfl
+    · split
+      · split
+        · exact hnil rfl
+        · exact .exc _
+      · exact failT_tags hc
+  | popAll => simp only [step]; exact popAllLoop_tags inp _ _ _ (hc.of_eq rfl)
+  | drop =>
+    simp only [step]
+    split
+    · exact hnil rfl
+    · exact failT_tags hc
+  | anyB =>
+    simp only [step]
+    split
+    · exact hnil rfl
+    · exact hnil rfl
+  | soiB => simp only [step]; exact hnil rfl
+  | eoiB => simp only [step]; exact hnil rfl
+  | uprop n =>
+    simp only [step]
+    split
+    · split
+      · exact hnil rfl
+      · exact hnil rfl
+    · exact hnil rfl
+  | skipUntil subs => simp only [step]; exact hnil rfl
+  | optChoice alts star =>
+    simp only [step]
+    split
+    · exact hnil rfl
+    · exact hnil rfl
+
+theorem run_tags : ∀ n, TagsOK g e0 (run g inp n) := by
+  intro n
+  induction n with
+  | zero => intro x _ c m c' ps _ h; simp [run] at h
+  | succ n ih => exact step_tags inp n ih
+
+/-- **C06, tags (interpreter model).**  Starting with only grammar tags waiting on the tag
+    stack (in particular: none), every tag of every pair, at every depth, of the result is the
+    tag written on an identifier or group node reachable from `e`. -/
+theorem tags_are_grammar_tags {n : Nat} {e : Expr} {c c' : PState} {m : Bool} {ps : List Pair}
+    (hc : ∀ t ∈ c.tagStack, TagOK g e t) (h : run g inp n e c = .done m c' ps) :
+    AllPairs (fun p => ∀ t, p.tag = some t → TagOK g e t) ps :=
+  (run_tags inp n e .root c m c' ps hc h).2
+
+/-- the same for `Parser.parse`: the tags are those written in the rule bodies -/
+theorem parse_tags_are_grammar_tags {fuel : Nat} {start : String} {k : Nat} {c : PState} {m : Bool}
+    {ps : List Pair} (h : parse g inp fuel start k = .done m c ps) (e0 : Expr) :
+    AllPairs (fun p => ∀ t, p.tag = some t → TagOK g e0 t) ps := by
+  unfold parse at h
+  cases hl : g.lookup start with
+  | none => rw [hl] at h; cases h
+  | some r =>
+    rw [hl] at h
+    exact (ruleParse_tags (run_tags inp fuel) r.name r.mod (.body (Grammar.lookup_mem hl))
+      (ts_init k) m c ps h).2
+
+end L1
+
+/-! ## Part 7: a non-silent start rule yields exactly one root pair -/
+
+theorem L0.root_single {g : Grammar} {inp : Input} {fuel : Nat} {start : String} {k : Nat} {r : Rule}
+    {s : S0} {ps : List Pair} (hl : g.lookup start = some r) (hS : hasBit r.mod SILENT = false)
+    (h : L0.parse g inp fuel start k = .ok s ps) :
+    ∃ ch, ps = [.mk r.name r.mod k s.pos ch none] := by
+  unfold L0.parse at h
+  rw [hl] at h
+  simp only [L0.ruleApply] at h
+  cases hb : L0.run g inp fuel r.body
+      { (⟨k, [], false⟩ : S0) with atomic := L0.ruleAtomic r.name r.mod false } with
+  | ok s1 ps1 =>
+    rw [hb] at h
+    simp only [L0.ruleWrap, hS, Bool.false_eq_true, ↓reduceIte, R0.ok.injEq] at h
+    obtain ⟨rfl, rfl⟩ := h
+    exact ⟨_, rfl⟩
+  | fail => rw [hb] at h; cases h
+  | oof => rw [hb] at h; cases h
+  | stuck => rw [hb] at h; cases h
 
 end Pest
